@@ -530,6 +530,8 @@ func C12(ctx *core.Ctx) {
 		ctx.Check(ok, "C12.R5", ssax.Name(pm)+" › output buffer bounded by the client limit", fnPos(r, pm), "NewTMemoryOutputBuffer(client.limit)", "requests are encoded into a buffer that is not bounded by the client's limit")
 	}
 	// ---- R10: a rejected append leaves the buffer reset ------------------------------------
+	ctx.Rule("C12.R11", "an oversize reply does not wedge the server: the processor's write mutex is released on every exit, also after the too-large conversion", 4)
+	lockBalance(ctx, r, "C12.R11", "FBaseProcessor", "FBaseProcessorFunction")
 	ctx.Rule("C12.R10", "a rejected append resets the bounded buffer: every too-large return of its methods is preceded by Reset (the error reply is written into the same buffer)", 1)
 	if rs := r.FnOpt("(*TMemoryOutputBuffer).Reset"); rs != nil {
 		isAPI := map[*ssa.Function]bool{} // the appending methods of the buffer's API; each answers for its own rejections
@@ -775,9 +777,54 @@ func c12Response(ctx *core.Ctx, r *RT, pr *bounds.Prover) {
 	}
 	if mr := r.Fn("C12.R4", "(*fHTTPTransport).makeRequest"); mr != nil {
 		ok := false
+		is413 := func(v ssa.Value) bool {
+			bo, isB := v.(*ssa.BinOp)
+			if !isB || bo.Op != token.EQL {
+				return false
+			}
+			k, isK := ssax.ConstInt(bo.Y)
+			return isK && k == 413 && fieldNameOfValue(bo.X) == "StatusCode"
+		}
 		for _, b := range mr.Blocks {
 			iff, isIf := b.Instrs[len(b.Instrs)-1].(*ssa.If)
 			if !isIf {
+				continue
+			}
+			// the test itself, or a predicate of the package that is true only for a 413 answer
+			if pc, isCall := iff.Cond.(*ssa.Call); isCall {
+				g := pc.Call.StaticCallee()
+				if g == nil || g.Pkg != r.Pkg || len(g.Blocks) == 0 {
+					continue
+				}
+				mentions := false
+				ssax.Instrs(g, func(in ssa.Instruction) {
+					if v, isV := in.(ssa.Value); isV && is413(v) {
+						mentions = true
+					}
+				})
+				if !mentions {
+					continue
+				}
+				only := true
+				for _, vs := range ReturnedValues(g) {
+					if len(vs) != 1 || !boolOnlyFrom(vs[0], is413, 4) {
+						only = false
+					}
+				}
+				ctx.Check(only, "C12.R4", ssax.Name(g)+" › true only for an HTTP 413 answer", fnPos(r, g), "every way to return true is the StatusCode == 413 comparison",
+					"the predicate behind RESPONSE_TOO_LARGE is also true for responses the server did not refuse (a Content-Length above the limit, say — which counts base64 text and the frame header, not the payload): a response within the limit is reported as too large")
+				if !only {
+					ok = true // reported above; the mapping itself is judged on the 413 part
+				}
+				for ret, vs := range ReturnedValues(mr) {
+					if ret.Block() == b.Succs[0] || b.Succs[0].Dominates(ret.Block()) {
+						for _, v := range vs {
+							if kk, isEx := ExceptionKind(v, "thrift.NewTTransportException"); isEx && kk == constInt(r, "TRANSPORT_EXCEPTION_RESPONSE_TOO_LARGE") {
+								ok = true
+							}
+						}
+					}
+				}
 				continue
 			}
 			bo, isB := iff.Cond.(*ssa.BinOp)
@@ -847,4 +894,42 @@ func globalSliceLen(r *RT, g *ssa.Global) int64 {
 		return -1
 	}
 	return n
+}
+
+// boolOnlyFrom: whenever the boolean v is true, leaf holds of the comparison it
+// came from — v is the constant false, a leaf, or a φ of a short-circuit
+// expression whose every way to true goes through a leaf.
+func boolOnlyFrom(v ssa.Value, leaf func(ssa.Value) bool, depth int) bool {
+	v = ssax.Strip(v)
+	if depth < 0 {
+		return false
+	}
+	if k, isK := v.(*ssa.Const); isK && k.Value != nil {
+		return k.Value.String() == "false"
+	}
+	if leaf(v) {
+		return true
+	}
+	ph, isPhi := v.(*ssa.Phi)
+	if !isPhi {
+		return false
+	}
+	for i, e := range ph.Edges {
+		if k, isK := e.(*ssa.Const); isK && k.Value != nil {
+			if k.Value.String() == "false" {
+				continue
+			}
+			// true arrives from a predecessor whose own condition was true (a || …): that condition must be a leaf
+			pb := ph.Block().Preds[i]
+			iff, isIf := pb.Instrs[len(pb.Instrs)-1].(*ssa.If)
+			if !isIf || pb.Succs[0] != ph.Block() || !boolOnlyFrom(iff.Cond, leaf, depth-1) {
+				return false
+			}
+			continue
+		}
+		if !boolOnlyFrom(e, leaf, depth-1) {
+			return false
+		}
+	}
+	return true
 }
